@@ -1,0 +1,16 @@
+//go:build verif
+
+package transport
+
+import "net"
+
+// NewTelnetWithConn returns a Telnet transport that uses the given, already established,
+// connection -- only available to the verification harness (build tag verif).
+func NewTelnetWithConn(c net.Conn) *Telnet {
+	return &Telnet{TelnetArgs: &TelnetArgs{}, c: c}
+}
+
+// HandleControlChars runs the option negotiation phase of Open on the connection.
+func (t *Telnet) HandleControlChars(a *Args) error {
+	return t.handleControlChars(a)
+}
